@@ -66,7 +66,11 @@ def render(ids, crlf=False, style=None, junk=None):
         extra = b''
 
         if junk and junk[0] == i:
-            out.append(JUNK_LINES[junk[1] % len(JUNK_LINES)] + nl)
+            # (terminated like the headers, or - every other draw - by a
+            # bare LF, which in a CRLF file makes it no header line either)
+            out.append(JUNK_LINES[junk[1] % len(JUNK_LINES)] +
+                       (nl if (junk[1] // len(JUNK_LINES)) % 2 == 0
+                        else b'\n'))
 
         if st & 1:
             # blank lines (before the first header too; there in either
@@ -184,7 +188,7 @@ def generate(rng, tier, cls):
             'noise': pipe.gen_noise(rng),
             'crlf': rng.chance(0.15),
             'dom_hook': rng.chance(0.15),
-            'junk': [rng.below(len(ids)), rng.below(100)]
+            'junk': [rng.below(len(ids)), rng.below(1000)]
             if rng.chance(0.08) else None,
             'norewind': rng.randint(1, 6) if rng.chance(0.08) else None,
             'stream': gen.gen_stream(rng)[0],
